@@ -516,6 +516,10 @@ def coverage(repo, chk):
     if len(stores) != 1 or not loops:
         chk.unsure('C13.5', 'R15', fn.site(), 'coverage[column] = ...', 'unexpected structure of compute_coverage')
         return
+    from .common import stale_parameter_caches
+    for cname, node in stale_parameter_caches(fn):
+        chk.bad('C13.5a', 'R10', fn.site(node), ast.unparse(node)[:100], f'the configuration is cached in the module-level `{cname}` on first use (filled only while it is empty) and read from there afterwards: every later call in the process - another data set, other missing-value symbols - '
+                'is computed with the first call\'s symbols, so the coverage no longer equals the exact recomputation for the configured symbols')
     st = stores[0]
     lp = loops[0]
     col = lp.target.id if isinstance(lp.target, ast.Name) else None
